@@ -166,6 +166,38 @@ fn caps_json(glob: &Glob<'_>) -> Value {
     )
 }
 
+/// Repetition bounds are exported as decimal strings (they may exceed what TLC can represent);
+/// here they become integers: more than six digits -> 999999 (BIG), no upper bound -> 1000000 (INF).
+fn normalise_tokens(tok: &mut Value) {
+    fn bound(v: &Value) -> i64 {
+        match v {
+            Value::Null => 1_000_000,
+            Value::String(s) => {
+                if s.len() > 6 {
+                    999_999
+                }
+                else {
+                    s.parse().unwrap_or(999_999)
+                }
+            },
+            _ => 999_999,
+        }
+    }
+    if let Some(obj) = tok.as_object_mut() {
+        if obj.get("k").and_then(Value::as_str) == Some("rep") {
+            let lo = bound(obj.get("lo").unwrap_or(&Value::Null));
+            let hi = bound(obj.get("hi").unwrap_or(&Value::Null));
+            obj.insert("lo".into(), json!(lo));
+            obj.insert("hi".into(), json!(hi));
+        }
+        if let Some(ts) = obj.get_mut("ts").and_then(Value::as_array_mut) {
+            for t in ts {
+                normalise_tokens(t);
+            }
+        }
+    }
+}
+
 pub struct Want {
     pub dfa: bool,
     pub walk: bool,
@@ -215,7 +247,9 @@ pub fn observe_glob(id: u64, e: &str, sigma: &[u32], want: &Want, max_states: us
         },
     }
     if want.tok {
-        rec["tok"] = serde_json::from_str(&glob.verif_tokens()).unwrap_or(Value::Null);
+        let mut tok: Value = serde_json::from_str(&glob.verif_tokens()).unwrap_or(json!({"k": "bad"}));
+        normalise_tokens(&mut tok);
+        rec["tok"] = tok;
     }
     if want.dfa {
         rec["dfa"] = table_json(glob.verif_pattern(), sigma, max_states);
